@@ -13,6 +13,7 @@ C20-index   every subscript by `._ufl_typecode_` outside the registry module ind
             rule C20-cache covers, a dict (KeyError-free via `in`/.get), or a per-call table.
 C20-sd      DAGTraverser-based algorithms dispatch through functools.singledispatchmethod (whose cache is
             invalidated on registration) - no typecode tables.
+C20-cache/key  the cache entry is found under the exact algorithm class (see C19-mro/cache).
 """
 
 from __future__ import annotations
